@@ -253,42 +253,46 @@ func (e *Engine) RaftHandlerTable() (*HandlerTable, error) {
 			if !ok || f != fld {
 				return
 			}
-			sc, ok1 := ia1.Index.(*ssa.Const)
-			tc, ok2 := ia2.Index.(*ssa.Const)
-			if !ok1 || !ok2 {
+			scs := indexConsts(ia1.Index)
+			tcs := indexConsts(ia2.Index)
+			if len(scs) == 0 || len(tcs) == 0 {
 				err = fmt.Errorf("non-constant handler table index at %s", e.ipos(in))
 				return
 			}
-			sn := constName(raftPkg, stateT, sc)
-			tn := constName(pbPkg, mtT, tc)
-			if sn == "" || tn == "" {
-				// untyped index constant: match by value against the typed consts
-				sn = constNameByVal(raftPkg, stateT, sc)
-				tn = constNameByVal(pbPkg, mtT, tc)
-			}
-			if sn == "" || tn == "" {
-				err = fmt.Errorf("cannot name handler table index at %s", e.ipos(in))
-				return
-			}
-			c := Cell{State: sn, Type: tn, Pos: in.Pos()}
-			if call, ok := st.Val.(*ssa.Call); ok {
-				// wrapper(r, f): the body is the function-typed argument
-				c.Wrapped = true
-				for _, a := range call.Call.Args {
-					if _, isSig := a.Type().Underlying().(*types.Signature); isSig {
-						c.Fn = bodyOfFuncValue(a)
+			for _, sc := range scs {
+				for _, tc := range tcs {
+					sn := constName(raftPkg, stateT, sc)
+					tn := constName(pbPkg, mtT, tc)
+					if sn == "" || tn == "" {
+						// untyped index constant: match by value against the typed consts
+						sn = constNameByVal(raftPkg, stateT, sc)
+						tn = constNameByVal(pbPkg, mtT, tc)
 					}
+					if sn == "" || tn == "" {
+						err = fmt.Errorf("cannot name handler table index at %s", e.ipos(in))
+						return
+					}
+					c := Cell{State: sn, Type: tn, Pos: in.Pos()}
+					if call, ok := st.Val.(*ssa.Call); ok {
+						// wrapper(r, f): the body is the function-typed argument
+						c.Wrapped = true
+						for _, a := range call.Call.Args {
+							if _, isSig := a.Type().Underlying().(*types.Signature); isSig {
+								c.Fn = bodyOfFuncValue(a)
+							}
+						}
+					} else {
+						c.Fn = bodyOfFuncValue(st.Val)
+					}
+					if c.Fn == nil {
+						err = fmt.Errorf("cannot resolve handler stored at %s", e.ipos(in))
+						return
+					}
+					t.Cells = append(t.Cells, c)
+					t.States[sn] = true
+					t.Types[tn] = true
 				}
-			} else {
-				c.Fn = bodyOfFuncValue(st.Val)
 			}
-			if c.Fn == nil {
-				err = fmt.Errorf("cannot resolve handler stored at %s", e.ipos(in))
-				return
-			}
-			t.Cells = append(t.Cells, c)
-			t.States[sn] = true
-			t.Types[tn] = true
 		})
 		if err != nil {
 			return nil, err
@@ -299,6 +303,42 @@ func (e *Engine) RaftHandlerTable() (*HandlerTable, error) {
 	}
 	sort.Slice(t.Cells, func(i, j int) bool { return t.Cells[i].Pos < t.Cells[j].Pos })
 	return t, nil
+}
+
+// indexConsts: the constants an index expression can take: the constant
+// itself, or - for the loop variable of a range over a slice/array literal of
+// constants (`for _, st := range []State{a, b}`) - every element of the
+// literal. nil when the index is not of that shape.
+func indexConsts(v ssa.Value) []*ssa.Const {
+	v = stripConv(v)
+	if c, ok := v.(*ssa.Const); ok {
+		return []*ssa.Const{c}
+	}
+	u, ok := v.(*ssa.UnOp)
+	if !ok || u.Op != token.MUL {
+		return nil
+	}
+	ia, ok := u.X.(*ssa.IndexAddr)
+	if !ok {
+		return nil
+	}
+	base := ia.X
+	if sl, ok := base.(*ssa.Slice); ok {
+		base = sl.X
+	}
+	al, ok := base.(*ssa.Alloc)
+	if !ok {
+		return nil
+	}
+	var out []*ssa.Const
+	for _, sv := range storesInto(al) {
+		c, ok := sv.(*ssa.Const)
+		if !ok {
+			return nil
+		}
+		out = append(out, c)
+	}
+	return out
 }
 
 func constNameByVal(pkg *types.Package, t types.Type, c *ssa.Const) string {
